@@ -66,6 +66,27 @@ def _dump(path, filt=None, includes=()):
     return p.stdout
 
 
+def _normalise(node):
+    """AST normalisation: `x += 1` / `x -= 1` are the same statements as `++x` / `--x` (one spelling for every rule)."""
+    stack = [node]
+    while stack:
+        n = stack.pop()
+        if not isinstance(n, dict):
+            continue
+        inner = n.get("inner") or []
+        if n.get("kind") == "CompoundAssignOperator" and n.get("opcode") in ("+=", "-=") and len(inner) == 2:
+            r = inner[1]
+            while isinstance(r, dict) and r.get("kind") in ("ImplicitCastExpr", "ParenExpr") and r.get("inner"):
+                r = r["inner"][0]
+            if isinstance(r, dict) and r.get("kind") == "IntegerLiteral" and str(r.get("value")) == "1":
+                n["kind"] = "UnaryOperator"
+                n["opcode"] = "++" if n["opcode"] == "+=" else "--"
+                n["isPostfix"] = False
+                n["inner"] = [inner[0]]
+                inner = n["inner"]
+        stack.extend(inner)
+
+
 def _multi_json(text):
     dec = json.JSONDecoder()
     i, n, out = 0, len(text), []
@@ -99,6 +120,8 @@ class CFile:
         if need_python and len(inc) < 2:
             raise AnalysisError("Python.h / numpy headers not found for clang")
         roots = _multi_json(_dump(path, filt, inc))
+        for r in roots:
+            _normalise(r)
         self.roots = roots
         self.funcs = {}
         self.globals = []
